@@ -699,4 +699,6 @@ def run(ctx):
     ctx.guard(harden.run, ctx, prog, 'C14.R10', [prog.fn1(NS + p + '::onRecvData') for p in PROTOS] + [prog.fn1(NS + 'Proto::onRecvJson')] +
               [prog.fn1(RPC + '::' + n) for n in ('onRecvRequest', 'onRecvRespond')],
               lambda g: g.file.startswith(MODULES + '/jsonrpc/') or g.file.startswith(MODULES + '/util/'), 'JSON-RPC receive path')
+    from tbxlint import progress
+    ctx.guard(progress.run_files, ctx, prog, 'C14.R19', ['jsonrpc/proto.cpp', 'jsonrpc/protos/header_stream_proto.cpp', 'jsonrpc/protos/raw_stream_proto.cpp', 'jsonrpc/protos/packet_proto.cpp', 'jsonrpc/rpc.cpp', 'util/json.cpp', 'util/serializer.cpp', 'eventx/timeout_monitor_impl.hpp'], 'JSON-RPC receive path', floor=1)
     return prog
